@@ -194,7 +194,7 @@ def _on_alarm(signum, frame):
     raise CaseTimeout("no answer within %d s" % CASE_SECONDS)
 
 
-CASE_SECONDS = 180
+CASE_SECONDS = 600
 _hung = False
 
 
